@@ -64,7 +64,7 @@ fn main() {
                     client::pty::cleanup_workdirs();
                     c
                 }
-                "T12a" | "T13a" | "T14a" => {
+                "T12a" | "T13a" | "T14a" | "Ra" => {
                     let st = std::process::Command::new(client::exe("adsb-sim-alloc")).arg("replay").arg(&path).status().unwrap_or_else(|e| harness_error(&format!("cannot run adsb-sim-alloc: {e}")));
                     st.code().unwrap_or(2)
                 }
@@ -94,7 +94,12 @@ fn check(prop: &str, tier: &str) -> i32 {
                 cfg.pre_found.push(v);
                 cfg.tolerate_det_mismatch = true;
             }
-            run_batch(&reader::ReaderEngine, &cfg).exit_code
+            let rc = run_batch(&reader::ReaderEngine, &cfg).exit_code;
+            if rc == 2 {
+                return rc;
+            }
+            // second configuration: the same engine against the alloc-only (no_std) decoder
+            rc.max(alloc_only_batch("C19", tier))
         }
         "C12" | "C13" | "C14" | "C15" => {
             let p: &'static str = match prop {
